@@ -25,37 +25,37 @@ TRUST = "CPython, numpy, scipy, cvxpy+SCS/Clarabel and picos+cvxopt as determini
 CHECKS = {
  "C07": dict(
    engine="simpool+history",
-   technique="deterministic simulation: seeded discrete-event worker-pool simulator (SimPool) + seeded call histories on one game object with OS-entropy seam; reference models checked after every step",
-   text="Seeded search over worker-pool schedules (worker count, chunk placement, durations, stalls, completion order, fork-time state snapshots) for the classical value above the multiprocessing threshold, and over call histories x entropy values on one NonlocalGame object for state preservation, order independence and the ordering chain; each violation is shrunk and replayed bit-exactly from its choice list. Exploration level: a clean batch is evidence, not proof.",
+   technique="deterministic simulation: seeded discrete-event worker-pool simulator (SimPool) + seeded call histories on one game object with OS-entropy seam; reference models checked after every step; injected faults: worker MemoryError (informational), a call aborted by an asynchronous interrupt at a drawn line of library code and then repeated",
+   text="Seeded search over worker-pool schedules (worker count, chunk placement, durations, stalls, completion order, fork-time state snapshots) for the classical value above the multiprocessing threshold, and over call histories x entropy values on one NonlocalGame object for state preservation, order independence and the ordering chain (histories include aborted calls, copies of the object, a byte-identical game of another shape, constructor-built product and BCS games through the pool); each violation is shrunk and replayed bit-exactly from its choice list. Exploration level: a clean batch is evidence, not proof.",
    note=TRUST + "; SimPool's fidelity to CPython 3.12 multiprocessing.Pool (chunking, per-chunk pickling, fork snapshots) is cross-checked against the real pool in the thorough tier, not proved; worker death and spawn start-method are not modelled; NPA levels have no independent oracle beyond the sandwich between achieved values and the LP value",
    design="4 (C07)"),
  "C08": dict(
-   engine="simpool+history",
-   technique="deterministic simulation: seeded worker-pool simulator for XOR games with >=10 questions per side; seeded call histories on one XORGame object checked against own primal/dual Tsirelson models",
-   text="Seeded search over worker-pool schedules for XORGame.classical_value on games that reach the pool branch, against an independent +/-1 enumeration; plus seeded call histories on one XORGame object (classical / quantum / non-signaling / NPA-1 of the converted game) judged by own primal-dual bias models. The Bell-inequality-maximiser clauses are not checked (pure function sharing nothing with the simulated objects).",
+   engine="simpool+history+interleaved-callers",
+   technique="deterministic simulation: seeded worker-pool simulator for XOR games with >=10 questions per side; seeded call histories on one XORGame object (with interrupted-call faults) checked against own primal/dual Tsirelson models; two or three caller threads with their own games interleaved at line granularity by the seeded baton-passing scheduler, judged against the same calls made alone",
+   text="Seeded search over worker-pool schedules for XORGame.classical_value on games that reach the pool branch, against an independent +/-1 enumeration; plus seeded call histories on one XORGame object (classical / quantum / non-signaling / NPA-1 of the converted game) judged by own primal-dual bias models; plus interleaved callers with their own XORGame objects (engine T8: whatever one caller sees of another goes through state the library keeps). The Bell-inequality-maximiser clauses are not checked (pure function sharing nothing with the simulated objects).",
    note=TRUST + "; only the pool clause is schedule-decided, the remaining clauses are reference-model checks on the objects of the simulated history; bell_inequality_max is not covered",
    design="4 (C08)"),
  "C09": dict(
    engine="history",
-   technique="deterministic simulation: seeded call histories on one ExtendedNonlocalGame object (OS-entropy seam for the see-saw) and on one QuantumHedging object, with a second same-shape object used in between; eigenvalue-enumeration, NPA/LP and own primal/dual reference models after every step",
+   technique="deterministic simulation: seeded call histories on one ExtendedNonlocalGame object (OS-entropy seam for the see-saw) and on one QuantumHedging object, with a second same-shape object used in between, interrupted-call faults and in-place parameter sweeps by the caller; eigenvalue-enumeration, NPA/LP and own primal/dual reference models after every step",
    text="Seeded search over entropy values for the randomised see-saw lower bound and over call orders on one extended-game object (every lower bound and the unentangled value stay below every NPA bound and the non-signaling value; values do not depend on call order), and over call orders of the four value methods of one QuantumHedging object (object unchanged, primal = dual, max >= min, agreement with an own primal/dual pair, two repetitions consistent with the single shot). The cloning clauses are not checked (optimal_clone is a deterministic SDP of its arguments with no object, state or seam).",
    note=TRUST + "; optimal_clone clauses are not covered; the see-saw only runs when referee dimension equals Bob's answer count; hedging closed forms (3/4, cos^2(pi/8)) are covered only through the own primal/dual model on the Molina-Watrous family",
    design="4 (C09)"),
  "C12": dict(
-   engine="history",
-   technique="deterministic simulation: seeded call histories over one caller-owned list of states shared by successive PPT / symmetric-extension calls; aliasing and order-independence invariants plus reference orderings after every step",
-   text="A simulated caller reuses one list of states across seeded sequences of ppt_distinguishability / symmetric_extension_hierarchy / state_distinguishability calls; after every step the list must be byte-identical to its shadow and every value equal to the value on a pristine copy; orderings (LOCC <= sym-ext <= PPT <= global, primal = dual, level monotonicity) are checked on the values the history produces.",
+   engine="history+interleaved-callers",
+   technique="deterministic simulation: seeded call histories over one caller-owned list of states shared by successive PPT / symmetric-extension calls; aliasing and order-independence invariants plus reference orderings after every step, interrupted-call faults; two caller threads with their own ensembles interleaved at line granularity by the seeded baton-passing scheduler, judged against the same calls made alone",
+   text="A simulated caller reuses one list of states across seeded sequences of ppt_distinguishability / symmetric_extension_hierarchy / state_distinguishability calls; after every step the list must be byte-identical to its shadow and every value equal to the value on a pristine copy; orderings (LOCC <= sym-ext <= PPT <= global, primal = dual, level monotonicity) are checked on the values the history produces. Engine HT interleaves two callers that share nothing but the library.",
    note=TRUST + "; invariance under local unitaries / transposed party is sampled sparsely",
    design="4 (C12)"),
  "C14": dict(
    engine="global-rng",
-   technique="deterministic simulation: seeded control of the process-global numpy RNG (the only nondeterministic input of the randomised S(k)-norm lower bound) with interleaved adversary draws; bracket invariants against own Schmidt-rank-k witnesses",
+   technique="deterministic simulation: seeded control of the process-global numpy RNG (the only nondeterministic input of the randomised S(k)-norm lower bound) with adversary draws between calls and writes to the global generator (reseed / advance / rewind) injected at line boundaries INSIDE the call; bracket invariants against own Schmidt-rank-k witnesses",
    text="Only the S(k) operator-norm clause is claimed: the routine is evaluated under many seeded global-RNG states interleaved with adversary draws; lower <= upper, every own Schmidt-rank<=k witness <= upper, exact regimes equal the reference. All closed-form / invariance clauses are pure functions and are not checked.",
    note=TRUST + "; the closed-form clauses (negativity, log-negativity, EoF, concurrence, Schmidt rank/decomposition, S(k) vector norm, coherence, purity, entropy, product test) are not covered",
    design="4 (C14)"),
  "C19": dict(
    engine="thread-scheduler",
-   technique="deterministic simulation: real client threads run one at a time by a seeded baton-passing scheduler with sys.settrace pre-emption points inside toqito, OS-entropy seam, global-RNG adversary; quiescent reference model, bitwise comparison",
+   technique="deterministic simulation: real client threads run one at a time by a seeded baton-passing scheduler with sys.settrace pre-emption points inside toqito, OS-entropy seam, global-RNG adversary; callers editing returned objects in place; quiescent reference model, bitwise comparison",
    text="Seeded search over thread interleavings (pre-emption at every Python line inside toqito), adversary writes to the process-global RNGs, entropy values and call histories: every seeded generator call must be bitwise equal to its quiescent reference wherever it occurs, different seeds must differ, every returned object must be of the advertised kind, and PGM/PBM/measure outputs built inside the history must be valid. Violations are shrunk and replayed bit-exactly.",
    note=TRUST + "; pre-emption at Python line granularity, numpy calls are atomic; P_opt for >2 states via an own SDP, sampled",
    design="4 (C19)"),
@@ -77,6 +77,7 @@ man = {
    {"name": "thread-scheduler", "path": "simdst/sched.py, simdst/engines/c19_rand.py", "serves_properties": ["C19"], "kind_free_text": "baton-passing real threads, sys.settrace pre-emption, seeded choice source"},
    {"name": "simpool", "path": "simdst/simpool.py, simdst/engines/c07_pool.py, simdst/engines/c08_pool.py", "serves_properties": ["C07", "C08"], "kind_free_text": "discrete-event in-process stand-in for multiprocessing.Pool"},
    {"name": "history", "path": "simdst/engines/*_hist.py", "serves_properties": ["C07", "C08", "C09", "C12"], "kind_free_text": "seeded operation histories on long-lived objects with entropy seam and reference models"},
+   {"name": "interleaved-callers", "path": "simdst/engines/threads_common.py, c08_threads.py, c12_threads.py", "serves_properties": ["C08", "C12"], "kind_free_text": "2..3 real threads with their own objects under the baton-passing scheduler; reference = the same call made alone"},
    {"name": "global-rng", "path": "simdst/engines/c14_sk.py", "serves_properties": ["C14"], "kind_free_text": "seeded control of numpy's legacy global RNG with adversary draws"},
  ],
  "checks": [],
